@@ -289,27 +289,80 @@ def replay_and_check(ctx, b, res, tag, nontrivial):
     return n
 
 
+def validate_lookup_trace(ctx, trace, tag):
+    """LookupTrace must consume every event.  A rejected lookup event is reported and
+    removed, and validation continues (a rejected table event ends that trace)."""
+    lines = [l for l in open(trace) if l.strip()]
+    accepted = 0
+    for attempt in range(6):
+        p = os.path.join(ctx.work, "trace-%s-%d.ndjson" % (tag, attempt))
+        with open(p, "w") as f:
+            f.writelines(lines)
+        ok, info = ctx.validate_trace("LookupTrace", p, timeout=3000)   # one TLC worker
+        if ok:
+            return accepted + len(lines)
+        um = info.get("unmatched")
+        if not um:
+            raise ToolError("trace validation failed without an unmatched event: %s" % info.get("error"))
+        idx_s, js = um.split(", ", 1)
+        idx = int(idx_s)
+        ev = json.loads(lines[idx - 1])
+        res = ev.get("res") if isinstance(ev.get("res"), dict) else {}
+        detail = ""
+        if ev["ev"] == "Find":
+            detail = ":hit" if res.get("hit") else ":miss"
+        elif ev["ev"] == "FindByHash":
+            detail = ":present" if ev.get("present") else ":absent"
+        elif "outcome" in res:
+            detail = ":" + str(res.get("outcome"))
+        elif "err" in res:
+            detail = ":err"
+        brief = {k: v for k, v in ev.items() if k in ("ev", "id", "h", "i", "b", "row", "present", "res", "kind")}
+        ctx.violation("trace:%s%s" % (ev["ev"], detail),
+                      "event %d of %s is not explainable by Lookup.tla (lookup differs from the scan of the logged table, "
+                      "or the logged table does not re-encode to the bytes): %s" % (idx, tag, json.dumps(brief)[:500]), brief, None)
+        if ev["ev"] in ("IndexTable", "NamesTable", "Table"):
+            return accepted + idx - 1
+        del lines[idx - 1]
+    return accepted
+
+
 def run(ctx):
+    from concurrent.futures import ThreadPoolExecutor
     q = ctx.quick
     profiles = ["dev"] if q else ["dev", "release"]
     bins = {p: ctx.build("gvh-lookup", p) for p in profiles}
+    B = lambda x: "TRUE" if x else "FALSE"
 
-    runs = []
-    # --- G: hash index
-    runs.append(("probe", ctx.tlc("MCIndex", write_cfg("MCIndex_run_probe", {"Mode": '"probe"', "Big": "FALSE" if q else "TRUE"}),
-                                  cases_name="index-probe", timeout=3000)))
-    runs.append(("raw", ctx.tlc("MCIndex", "MCIndex_raw", cases_name="index-raw", timeout=1200)))
-    runs.append(("cols", ctx.tlc("MCIndex", "MCIndex_cols", cases_name="index-cols", timeout=1200)))
+    # --- G: one TLC run per sub-system; at most ctx.workers (<= 4) TLC worker threads in total
+    jobs = [
+        ("index", "MCIndex", write_cfg("MCIndex_run", {"Mode": '"all"', "Big": B(not q), "RawBig": B(not q), "ColsFull": B(not q)})),
+        ("names", "MCNames", write_cfg("MCNames_run", {"Mode": '"all"', "MaxNames": 3 if q else 4, "MaxEntries": 2 if q else 3,
+                                                         "DjbLen": 2 if q else 3, "PoolNames": 2 if q else 3, "RawLen": 2 if q else 3})),
+        ("tables", "MCAranges", write_cfg("MCAranges_run", {"Mode": '"all"', "MaxTuples": 2 if q else 3})),
+        ("loader", "MCLoader", "MCLoader"),
+    ]
+    par = max(1, min(4, ctx.workers))
+    each = 2 if par >= 2 else 1            # TLC workers per run
+    slots = max(1, par // each)            # concurrent TLC runs: each * slots <= 4
 
-    # --- G: name index
-    nm = {"Mode": '"all"', "MaxNames": 3 if q else 4, "MaxEntries": 2 if q else 3, "DjbLen": 2 if q else 3}
-    runs.append(("names", ctx.tlc("MCNames", write_cfg("MCNames_run", nm), cases_name="names", timeout=3000)))
+    # --- V: record large random tables while TLC runs
+    rounds = [(ctx.seed, 10)] if q else [(ctx.seed + i, 12) for i in range(3)]
+    traces = [(ctx.record(bins["dev"], "lookup-%d.ndjson" % sd, ["--seed", sd, "--n", 1, "--log2", k]), "seed%d" % sd)
+              for sd, k in rounds]
 
-    # --- G: aranges, pub tables, indexed tables
-    runs.append(("tables", ctx.tlc("MCAranges", write_cfg("MCAranges_run", {"Mode": '"all"', "MaxTuples": 2 if q else 3}),
-                                   cases_name="tables", timeout=3000)))
+    def gjob(j):
+        tag, module, cfg = j
+        return tag, ctx.tlc(module, cfg, workers=each, cases_name=tag, timeout=6000)
 
-    runs.append(("loader", ctx.tlc("MCLoader", cases_name="loader", timeout=1200)))
+    with ThreadPoolExecutor(max_workers=slots) as ex:
+        gf = [ex.submit(gjob, j) for j in jobs]
+        vf = [ex.submit(validate_lookup_trace, ctx, tr, tag) for tr, tag in traces]
+        runs = [f.result() for f in gf]
+        nev = sum(f.result() for f in vf)
+    ctx.cov["traces_validated_against_impl"] += nev
+    ctx.cov["states"] = sum(r["distinct"] for r in ctx.cov["tlc_runs"])
+    ctx.cov["transitions"] = sum(r["generated"] for r in ctx.cov["tlc_runs"])
 
     def nontrivial(case):
         if case["sys"] == "loader":
@@ -333,9 +386,13 @@ def run(ctx):
     ctx.assumptions += [
         "index id 0 is the unused-slot marker: find(0) may report absent or the row stored in an unused slot",
         "hash tables not built by the standard's insertion (mode raw) may miss a present id; a hit must still name a row stored with that id",
+        "ill-formed name-index hash tables (mode raw): find_by_hash may miss names but may only yield names with the probed hash",
+        "aranges: a (0,0) tuple may be skipped (gimli) or end the set (standard); iteration may continue or stop after an overflowing tuple",
         "error kinds are compared as drift only",
+        "trace validation uses tables built by the harness with the standard's construction; the logged table is re-encoded by the spec and must equal the bytes",
+        "name-index chains in recorded tables are kept short (bucket_count >= names/8) except on tables of <= 64 names",
     ]
     ctx.finish("model_checking",
-               rule="one case per distinct state explored by TLC (table layout / column set / description); "
-                    "non-trivial = the table parses and has at least one slot, or a package/loader/name-index case",
+               rule="one case per distinct state explored by TLC (table layout / column set / description / api x failing id); "
+                    "non-trivial = the table parses and is non-empty; plus every lookup event on recorded tables validated by LookupTrace",
                exhaustive=True)
